@@ -55,7 +55,12 @@ def run_trial(msgs, order, ids, nu=None, light=False):
         obs = [] if light else [["none"]] * nu
         obs = list(obs)
         why = ""
-        for t in ([] if light else parser.incomplete_tasks()):
+        try:
+            retained = [] if light else parser.incomplete_tasks()
+        except Exception as e:
+            adds.append({"id": i, "done": [], "obs": [], "err": "incomplete_tasks_" + type(e).__name__})
+            break
+        for t in retained:
             r = t.root()
             if t.is_complete():
                 why = "retained_task_is_complete"
@@ -66,7 +71,12 @@ def run_trial(msgs, order, ids, nu=None, light=False):
                 why = "returned_task_not_complete"
             dn.append(uid[t.root().task_uuid])
         adds.append({"id": i, "done": dn, "obs": obs, "err": "", "why": why})
-    incomplete = [uid[t.root().task_uuid] for t in parser.incomplete_tasks()]
+    try:
+        incomplete = [uid[t.root().task_uuid] for t in parser.incomplete_tasks()]
+    except Exception as e:
+        incomplete = []
+        if not (adds and adds[-1]["err"]):
+            adds.append({"id": ids[-1] if ids else 0, "done": [], "obs": [], "err": "incomplete_tasks_" + type(e).__name__})
     # parse_stream must agree with add-by-add: completed ones as they complete, the rest at the end
     why = next((a.get("why") for a in adds if a.get("why")), "")
     if not why and not (adds and adds[-1]["err"]):
